@@ -955,6 +955,7 @@ binary_mul_fns: dict[str, BinaryCallable] = {
     "/": lambda x, y: "Divide by zero" if y == 0 else x / y,
     "div": lambda x, y: "Divide by zero" if y == 0 else x / y,
     "mod": lambda x, y: "Divide by zero" if y == 0 else x % y,
+    "fmod": lambda x, y: "Divide by zero" if y == 0 else math.fmod(x, y),
 }
 
 binary_add_fns: dict[str, BinaryCallable] = {
@@ -1145,6 +1146,10 @@ def expr_fn(
     ret = parse_expr(tok)
     if isinstance(ret, str):
         return ret
+    if tokidx < len(tokens):
+        # Something is left over (an unknown operator, a second operand,
+        # an unbalanced parenthesis): that is an error, not end of input
+        return expr_error(tokens[tokidx])
     if isinstance(ret, float):
         if ret == math.floor(ret):
             return str(int(ret))
